@@ -103,6 +103,10 @@ def catalogue(canary):
         out.append(("pp_defs-file:%d" % i, {"a.F90": mod % "#if X", ".fortls": json.dumps({"pp_defs": {"X": p}})}, []))
         out.append(("pp_defs-cli:%d" % i, {"a.F90": mod % "#if X"}, ["--pp_defs", json.dumps({"X": p})]))
         out.append(("fndefine:%d" % i, {"a.F90": "#define F(a) %s\n" % p + mod % "#if F(1)"}, []))
+    # configuration values that name files: only the debug log inside the workspace may be written
+    mod = "module m\ninteger :: v\nend module m\n"
+    for i, v in enumerate([True, "../c17_outside_notes.txt", canary, "sub/../../c17_outside2.txt"]):
+        out.append(("debug_log:%d" % i, {"a.F90": mod, ".fortls": json.dumps({"debug_log": v})}, []))
     return out
 
 
@@ -121,7 +125,13 @@ def run_child(files, extra, canary):
         if not os.path.exists(logp):
             return {"events": [["child-failed", (p.stderr or "")[-300:]]], "canary": os.path.exists(canary), "new_files": []}
         r = json.load(open(logp))
-        r["new_files"] = sorted(set(os.listdir(d)) - before)
+        r["new_files"] = sorted(x for x in set(os.listdir(d)) - before if x != "fortls_debug.log")
+        out1 = os.path.join(os.path.dirname(d), "c17_outside_notes.txt")
+        out2 = os.path.join(os.path.dirname(os.path.dirname(d)), "c17_outside2.txt")
+        for o in (out1, out2):
+            if os.path.exists(o):
+                r["new_files"].append("OUTSIDE:" + os.path.basename(o))
+                os.remove(o)
         return r
     except subprocess.TimeoutExpired:
         return {"events": [["timeout", ""]], "canary": os.path.exists(canary), "new_files": []}
